@@ -308,6 +308,26 @@ fn sets(rep: &mut Report, seed: u64, scale: u64) {
             if (a == b) != (ra == rb) || (b == a) != (ra == rb) {
                 problems.push("==".into());
             }
+            // clone / clone_from of sets (any phase on both sides, different hasher seeds)
+            {
+                let c = a.clone();
+                chk("clone", c.iter().map(|k| k.k()).collect(), ra.iter().copied().collect(), &mut problems);
+                if !(c == a) || c.len() != a.len() {
+                    problems.push("clone != original".into());
+                }
+                let mut d = b.clone();
+                d.clone_from(&a);
+                chk("clone_from", d.iter().map(|k| k.k()).collect(), ra.iter().copied().collect(), &mut problems);
+                if !(d == a) || d.len() != ra.len() || ra.iter().any(|k| !d.contains(&Q(*k))) {
+                    problems.push("clone_from: destination != source / lookups fail".into());
+                }
+                let mut e = a.clone();
+                e.clone_from(&b);
+                chk("clone_from (swapped)", e.iter().map(|k| k.k()).collect(), rb.iter().copied().collect(), &mut problems);
+                if rb.iter().any(|k| !e.contains(&Q(*k))) || !(e == b) {
+                    problems.push("clone_from (swapped): destination != source / lookups fail".into());
+                }
+            }
             // subset pairs: a and a ∩ b as a set
             let inter: S = {
                 let mut s = S::with_hasher(VBuild { kind: hk, seed: 1 });
@@ -413,6 +433,9 @@ fn sets(rep: &mut Report, seed: u64, scale: u64) {
         let an = take_anomalies();
         if !problems.is_empty() || !an.is_empty() {
             rep.fail("C13", format!("{} {}", problems.join("; "), an.join("; ")), log.join("\n"));
+            if problems.iter().any(|p| p.starts_with("clone")) {
+                rep.fail("C11", format!("(sets) {}", problems.join("; ")), log.join("\n"));
+            }
         }
         if rep.samples.is_empty() {
             rep.samples.push(log.iter().take(30).cloned().collect::<Vec<_>>().join(" ; "));
@@ -516,6 +539,15 @@ fn par(rep: &mut Report, seed: u64, scale: u64) {
                             problems.push("par_eq (one value differs)".into());
                         }
                     }
+                    // same length, one key replaced by another: not equal, whichever side is asked
+                    if let Some(k) = seq.keys().next() {
+                        let mut other2 = m.clone();
+                        let v = other2.remove(k).unwrap();
+                        other2.insert(*k + 1_000_003, v);
+                        if pool.install(|| m.par_eq(&other2)) != (m == other2) || pool.install(|| other2.par_eq(&m)) || m == other2 {
+                            problems.push("par_eq (same length, one key differs)".into());
+                        }
+                    }
                     // sets
                     let sa: PS = {
                         let mut s = PS::with_hasher(VBuild { kind: hk, seed: 3 });
@@ -565,6 +597,9 @@ fn par(rep: &mut Report, seed: u64, scale: u64) {
                 rep.tuples.insert(format!("pool{pi} split{split} size{}", (target as f64).log2() as u32));
                 if !problems.is_empty() {
                     rep.fail("C15", format!("threads={} run={rep_i}: {}", [1, 2, 3, 4, 8, 16][pi], problems.join("; ")), log.join("\n"));
+                    if problems.iter().any(|p| p.contains("par_eq")) {
+                        rep.fail("C14", format!("(rayon) {}", problems.join("; ")), log.join("\n"));
+                    }
                 }
             }
         }
